@@ -1,6 +1,7 @@
 package main
 
 import (
+	"os"
 	"fmt"
 	"go/ast"
 	"go/token"
@@ -28,149 +29,97 @@ func runC11(c *Ctx) {
 		return
 	}
 	key := funcKey(p, fd)
-	fc := newFnCFG(fd.Body, info)
-	// the ResponseWriter parameter
+	// The rules are stated over the PATHS of the handler with the package's own helpers, method values and function
+	// literals followed into (virtual inlining): whether the work is in one method, split into phases that hand a result
+	// struct on, moved into plain functions, or wrapped in a closure given to a buffer-scoping helper, the sequence of
+	// events on a path — GetBuffer, Render, the test of its error, effects on the ResponseWriter — is the same.
 	var wObj types.Object
 	for _, prm := range fd.Type.Params.List {
 		if t := info.TypeOf(prm.Type); t != nil && t.String() == "net/http.ResponseWriter" && len(prm.Names) == 1 {
 			wObj = info.Defs[prm.Names[0]]
 		}
 	}
-	isW := func(e ast.Expr) bool {
-		id, ok := ast.Unparen(e).(*ast.Ident)
-		return ok && info.ObjectOf(id) == wObj
-	}
-	// Render call and its writer argument
-	var render, renderInHelper *ast.CallExpr
-	directNodes(fd.Body, func(n ast.Node) bool {
-		if call, ok := n.(*ast.CallExpr); ok {
-			if se, ok := call.Fun.(*ast.SelectorExpr); ok && se.Sel.Name == "Render" && len(call.Args) == 2 {
-				render = call
-			}
-		}
-		return true
-	})
-	scope := fd // where the Render call and its buffer live
-	viaHelper := false
-	if render == nil {
-		// the render may be delegated to a helper of the package: <bytes>, err := helper(ctx, component)
-		directNodes(fd.Body, func(n ast.Node) bool {
-			call, ok := n.(*ast.CallExpr)
-			if !ok || render != nil {
-				return true
-			}
-			fn := calleeOf(info, call)
-			if fn == nil || fn.Pkg() != p.Types {
-				return true
-			}
-			hfd := findFunc(p, "", fn.Name())
-			if hfd == nil {
-				return true
-			}
-			ast.Inspect(hfd.Body, func(m ast.Node) bool {
-				if hc, ok := m.(*ast.CallExpr); ok {
-					if se, ok := hc.Fun.(*ast.SelectorExpr); ok && se.Sel.Name == "Render" && len(hc.Args) == 2 {
-						render = call
-						scope = hfd
-						viaHelper = true
-						renderInHelper = hc
-					}
-				}
-				return true
-			})
-			return true
-		})
-	}
-	if render == nil {
-		c.viol("C11.R1", key+"|render-call", c.pos(fd.Pos()), "no Component.Render call in the buffered handler or in a helper it calls")
-		return
-	}
-	var bufObj types.Object
-	bufArg := render.Args[len(render.Args)-1]
-	if viaHelper {
-		bufArg = renderInHelper.Args[1]
-	}
-	if id, ok := bufArg.(*ast.Ident); ok {
-		bufObj = info.ObjectOf(id)
-	}
-	pooled := false
-	if bufObj != nil {
-		ast.Inspect(scope.Body, func(n ast.Node) bool {
-			if as, ok := n.(*ast.AssignStmt); ok && len(as.Lhs) == 1 && len(as.Rhs) == 1 {
-				if lid, ok := as.Lhs[0].(*ast.Ident); ok && info.ObjectOf(lid) == bufObj {
-					if call, ok := as.Rhs[0].(*ast.CallExpr); ok {
-						if fn := calleeOf(info, call); fn != nil && fullName(fn) == modPath+".GetBuffer" {
-							pooled = true
-						}
-					}
-				}
-			}
-			return true
-		})
-	}
-	c.check(pooled && !isW(bufArg), "C11.R1", key+"|renders-into-pooled-buffer", c.pos(render.Pos()), "Render(ctx, <buffer from GetBuffer()>)",
-		"the buffered handler renders into "+types.ExprString(bufArg)+" instead of a pooled byte buffer: a failing component leaves a partial document on the wire")
-
-	// effects on the ResponseWriter
-	type effect struct {
-		node ast.Node
-		what string
-	}
-	var effects []effect
-	directNodes(fd.Body, func(n ast.Node) bool {
-		call, ok := n.(*ast.CallExpr)
-		if !ok {
-			return true
-		}
-		if se, ok := call.Fun.(*ast.SelectorExpr); ok && isW(se.X) {
-			effects = append(effects, effect{call, "w." + se.Sel.Name})
-			return true
-		}
-		for _, a := range call.Args {
-			if isW(a) {
-				effects = append(effects, effect{call, types.ExprString(call.Fun) + "(w…)"})
-			}
-		}
-		return true
-	})
-	c.count("response_writer_effects", len(effects))
-	// R2
-	okDom := len(effects) >= 3
-	bad := ""
-	for _, e := range effects {
-		if !fc.dominates(render, e.node) {
-			okDom = false
-			bad = e.what + " at " + c.pos(e.node.Pos())
+	decls := map[types.Object]*ast.FuncDecl{}
+	for _, f := range allFuncDecls(p) {
+		switch f.Name.Name {
+		case "GetBuffer", "ReleaseBuffer":
+		default:
+			decls[info.Defs[f.Name]] = f
 		}
 	}
-	c.check(okDom, "C11.R2", key+"|effects-after-render", c.pos(fd.Pos()), fmt.Sprintf("%d ResponseWriter effects, all dominated by Render", len(effects)),
-		"the ResponseWriter is touched ("+bad+") before the component was rendered into the buffer: status/headers are committed before it is known whether rendering succeeds")
-	// R3: the error branch
-	var errObj types.Object
-	ast.Inspect(fd.Body, func(n ast.Node) bool {
-		if as, ok := n.(*ast.AssignStmt); ok && len(as.Rhs) == 1 && as.Rhs[0] == ast.Expr(render) && len(as.Lhs) >= 1 {
-			if id, ok := as.Lhs[len(as.Lhs)-1].(*ast.Ident); ok {
-				errObj = info.ObjectOf(id)
-			}
-		}
-		return true
-	})
-	// Paths through the handler, split by the outcome of the render: effects are attributed to the error side or the
-	// success side by the truth value the path took for `err != nil` / `err == nil` (any arrangement of branches).
-	den := &denum{info: info, pkg: p.Types, inits: map[types.Object]ast.Expr{}, limit: 5000}
+	den := &denum{info: info, pkg: p.Types, inits: map[types.Object]ast.Expr{}, limit: 5000, decls: decls, inlineVals: true}
 	den.finish(den.run(fd.Body.List, []dstate{{env: map[types.Object]ast.Expr{}}}))
 	if den.undecided != "" {
 		c.undec("C11.R3", key+"|error-branch", c.pos(fd.Pos()), "the buffered handler contains "+den.undecided+": its paths cannot be enumerated")
 		return
 	}
+	evs := make([][]c11event, len(den.paths))
+	var renders []c11event
+	effectNodes := map[*ast.CallExpr]string{}
+	var effectOrder []*ast.CallExpr
+	for i, pth := range den.paths {
+		evs[i] = c11Events(info, den, pth, wObj)
+		for _, e := range evs[i] {
+			switch e.kind {
+			case "render":
+				renders = append(renders, e)
+			case "effect":
+				if _, seen := effectNodes[e.call]; !seen {
+					effectNodes[e.call] = e.what
+					effectOrder = append(effectOrder, e.call)
+				}
+			}
+		}
+	}
+	if len(renders) == 0 {
+		c.viol("C11.R1", key+"|render-call", c.pos(fd.Pos()), "no Component.Render call in the buffered handler or in a helper it calls")
+		return
+	}
+	// R1: what Render writes into
+	pooled, intoW, bufTxt := true, false, ""
+	var bufObj types.Object
+	for _, r := range renders {
+		bufTxt = types.ExprString(r.call.Args[1])
+		if r.bufIsW {
+			intoW = true
+		}
+		if !r.bufPooled {
+			pooled = false
+		}
+		if r.bufRoot != nil {
+			bufObj = r.bufRoot
+		}
+	}
+	c.check(pooled && !intoW, "C11.R1", key+"|renders-into-pooled-buffer", c.pos(renders[0].call.Pos()), "Render(ctx, <buffer from GetBuffer()>)",
+		"the buffered handler renders into "+bufTxt+" instead of a pooled byte buffer: a failing component leaves a partial document on the wire")
+	c.count("response_writer_effects", len(effectOrder))
+	// R2: on every path, every effect comes after the Render
+	okDom := len(effectOrder) >= 3
+	bad := ""
+	for i := range den.paths {
+		rendered := false
+		for _, e := range evs[i] {
+			if e.kind == "render" {
+				rendered = true
+			}
+			if e.kind == "effect" && !rendered {
+				okDom = false
+				bad = e.what + " at " + c.pos(e.call.Pos())
+			}
+		}
+	}
+	c.check(okDom, "C11.R2", key+"|effects-after-render", c.pos(fd.Pos()), fmt.Sprintf("%d ResponseWriter effects, on every path after Render", len(effectOrder)),
+		"the ResponseWriter is touched ("+bad+") before the component was rendered into the buffer: status/headers are committed before it is known whether rendering succeeds")
+	// R3: effects are attributed to the error side or the success side by the truth value the path took for the test of
+	// the render error (`err != nil` / `err == nil`, where err is what Render returned — in whatever variable or field)
 	sideOf := func(pth dpath) string {
 		for _, pc := range pth.Conds {
 			be, ok := ast.Unparen(pc.Expr).(*ast.BinaryExpr)
 			if !ok || types.ExprString(be.Y) != "nil" {
 				continue
 			}
-			id, ok := ast.Unparen(be.X).(*ast.Ident)
-			if !ok || errObj == nil || info.ObjectOf(id) != errObj {
+			call, ok := den.deref(be.X, pth.Env).(*ast.CallExpr)
+			if !ok || !isRenderCall(call) {
 				continue
 			}
 			isErr := pc.Val
@@ -186,28 +135,40 @@ func runC11(c *Ctx) {
 		}
 		return "untested"
 	}
-	sides := map[ast.Node]map[string]bool{}
+	sides := map[*ast.CallExpr]map[string]bool{}
 	var errStmts []ast.Stmt
 	nErrPaths, nOKPaths := 0, 0
-	for _, pth := range den.paths {
+	leak := false
+	for i, pth := range den.paths {
 		side := sideOf(pth)
+		if os.Getenv("TEMPLVET_DEBUG") != "" {
+			var took []string
+			for _, pc := range pth.Conds {
+				took = append(took, fmt.Sprintf("%s=%v", types.ExprString(pc.Expr), pc.Val))
+			}
+			var es []string
+			for _, e := range evs[i] {
+				es = append(es, e.kind+":"+e.what)
+			}
+			fmt.Fprintf(os.Stderr, "DEBUG C11 path %d side=%s [%s] events %v\n", i, side, strings.Join(took, ", "), es)
+		}
 		switch side {
 		case "error":
 			nErrPaths++
+			errStmts = append(errStmts, pth.Trace...)
 		case "success":
 			nOKPaths++
 		}
-		for _, st := range pth.Trace {
-			if side == "error" {
-				errStmts = append(errStmts, st)
+		for _, e := range evs[i] {
+			if e.kind != "effect" {
+				continue
 			}
-			for _, e := range effects {
-				if st.Pos() <= e.node.Pos() && e.node.End() <= st.End() {
-					if sides[e.node] == nil {
-						sides[e.node] = map[string]bool{}
-					}
-					sides[e.node][side] = true
-				}
+			if sides[e.call] == nil {
+				sides[e.call] = map[string]bool{}
+			}
+			sides[e.call][side] = true
+			if side == "error" && e.usesBuf {
+				leak = true
 			}
 		}
 	}
@@ -215,41 +176,27 @@ func runC11(c *Ctx) {
 	if nErrPaths == 0 || nOKPaths == 0 {
 		c.viol("C11.R3", key+"|error-branch", c.pos(fd.Pos()), "the buffered handler does not branch on the render error: the response is the same whether or not rendering failed")
 	} else {
-		var errEff, okEff, mixedEff []effect
-		for _, e := range effects {
-			sd := sides[e.node]
+		var errEff, okEff, mixedEff []*ast.CallExpr
+		for _, call := range effectOrder {
+			sd := sides[call]
 			switch {
 			case sd["error"] && !sd["success"] && !sd["untested"]:
-				errEff = append(errEff, e)
+				errEff = append(errEff, call)
 			case sd["success"] && !sd["error"] && !sd["untested"]:
-				okEff = append(okEff, e)
+				okEff = append(okEff, call)
 			case len(sd) > 0:
-				mixedEff = append(mixedEff, e)
+				mixedEff = append(mixedEff, call)
 			}
 		}
 		mixed := ""
-		for _, e := range mixedEff {
-			mixed = e.what + " at " + c.pos(e.node.Pos())
+		for _, call := range mixedEff {
+			mixed = effectNodes[call] + " at " + c.pos(call.Pos())
 		}
 		c.check(mixed == "", "C11.R3", key+"|success-effects-after-error-test", c.pos(fd.Pos()), "every effect on the ResponseWriter is on one side of the error test only",
-			"an effect on the ResponseWriter ("+mixed+") is executed both when rendering failed and when it succeeded (it precedes the error test, or the error branch falls through to it): a header, status or body meant for the success response is committed for the error response too")
+			"an effect on the ResponseWriter ("+mixed+") is executed both when rendering failed and when it succeeded (it precedes the error test, or the error branch falls through to it): a header, status or body meant for the success response is committed for a failed render, or the error response is followed by the document")
 		c.check(len(errEff) >= 1 && len(okEff) >= 1, "C11.R3", key+"|error-and-success-effects-disjoint", c.pos(fd.Pos()),
 			fmt.Sprintf("%d effects on error paths only, %d on success paths only", len(errEff), len(okEff)),
 			"the error side or the success side of the buffered handler has no effect on the ResponseWriter of its own")
-		// the buffer must not be written on the error path
-		leak := false
-		for _, e := range errEff {
-			if call, ok := e.node.(*ast.CallExpr); ok {
-				for _, a := range call.Args {
-					ast.Inspect(a, func(n ast.Node) bool {
-						if id, ok := n.(*ast.Ident); ok && info.ObjectOf(id) == bufObj {
-							leak = true
-						}
-						return true
-					})
-				}
-			}
-		}
 		// the configured success status is not committed on the error path — directly or through a helper that is handed w
 		commits := ""
 		var findStatus func(root ast.Node, depth int) string
@@ -292,123 +239,95 @@ func runC11(c *Ctx) {
 		c.check(commits == "", "C11.R3", key+"|success-status-not-committed-on-error", c.pos(fd.Pos()), "the configured status is written only on the success side",
 			"the error branch commits the configured success status ("+commits+") before the error handler runs: the client receives a success status with the error body")
 		c.check(!leak, "C11.R3", key+"|no-document-bytes-on-error", c.pos(fd.Pos()), "the error branch never writes the buffer", "the error branch writes the (partial) buffer to the client")
-		// R4
-		var writes []*ast.CallExpr
-		for _, s := range okEff {
-			if call, ok := s.node.(*ast.CallExpr); ok && s.what == "w.Write" {
-				writes = append(writes, call)
-			}
+		// R4: the success side writes the rendered document, once, after status and headers
+		okSide := map[*ast.CallExpr]bool{}
+		for _, call := range okEff {
+			okSide[call] = true
 		}
-		good := len(writes) == 1
-		if good {
-			arg := writes[0].Args[0]
-			good = false
-			if call, ok := arg.(*ast.CallExpr); ok {
-				if se, ok := call.Fun.(*ast.SelectorExpr); ok && se.Sel.Name == "Bytes" {
-					if id, ok := se.X.(*ast.Ident); ok && info.ObjectOf(id) == bufObj {
-						good = true
+		good, okOrder := true, true
+		nWritePaths := 0
+		var firstWrite *ast.CallExpr
+		for i, pth := range den.paths {
+			if sideOf(pth) != "success" {
+				continue
+			}
+			nw := 0
+			for _, e := range evs[i] {
+				if e.kind != "effect" || !okSide[e.call] {
+					continue
+				}
+				switch e.what {
+				case "w.Write":
+					nw++
+					if firstWrite == nil {
+						firstWrite = e.call
+					}
+					if !e.writesRendered {
+						good = false
+					}
+				case "w.WriteHeader", "w.Header":
+					if nw > 0 {
+						okOrder = false
 					}
 				}
 			}
-			if viaHelper {
-				// the helper's first result is the document
-				ast.Inspect(fd.Body, func(n ast.Node) bool {
-					if as, ok := n.(*ast.AssignStmt); ok && len(as.Rhs) == 1 && as.Rhs[0] == ast.Expr(render) && len(as.Lhs) == 2 {
-						if lid, ok := as.Lhs[0].(*ast.Ident); ok {
-							if aid, ok := ast.Unparen(arg).(*ast.Ident); ok && info.ObjectOf(aid) == info.ObjectOf(lid) {
-								good = true
-							}
-						}
-					}
-					return true
-				})
+			if nw != 1 {
+				good = false
 			}
+			nWritePaths++
 		}
-		c.check(good, "C11.R4", key+"|body-is-rendered-buffer", c.pos(fd.Pos()), "the success body is Bytes() of the rendered buffer, written once",
+		c.check(good && nWritePaths > 0, "C11.R4", key+"|body-is-rendered-buffer", c.pos(fd.Pos()), "the success body is Bytes() of the rendered buffer, written once",
 			"the success response does not write exactly Bytes() of the buffer that was rendered into")
-		// status before body
-		if len(writes) == 1 {
-			okOrder := true
-			for _, s := range okEff {
-				if s.what == "w.WriteHeader" || s.what == "w.Header" {
-					if !fc.dominates(s.node, writes[0]) && fc.reachable(writes[0], s.node) {
-						okOrder = false
-					}
-					if s.node.Pos() > writes[0].Pos() {
-						okOrder = false
-					}
+		if firstWrite != nil {
+			c.check(okOrder, "C11.R4", key+"|headers-and-status-before-body", c.pos(firstWrite.Pos()), "content type and status are set before the body is written", "headers or status are set after the body was written (they would be ignored)")
+		}
+	}
+	_ = bufObj
+	// the pooled buffer is handed back only by a deferred call: on no path is it released while the handler still runs
+	deferred, nonDeferred := false, false
+	for i := range den.paths {
+		for _, e := range evs[i] {
+			if e.kind == "release" {
+				if e.deferred {
+					deferred = true
+				} else {
+					nonDeferred = true
 				}
 			}
-			c.check(okOrder, "C11.R4", key+"|headers-and-status-before-body", c.pos(writes[0].Pos()), "content type and status are set before the body is written", "headers or status are set after the body was written (they would be ignored)")
 		}
 	}
-	// release deferred
-	deferred := false
-	for _, dc := range deferredCalls(scope.Body) {
-		if fn := calleeOf(info, dc); fn != nil && fullName(fn) == modPath+".ReleaseBuffer" {
-			deferred = true
-		}
-	}
-	nonDeferred := false
-	directNodes(scope.Body, func(n ast.Node) bool {
-		if _, ok := n.(*ast.DeferStmt); ok {
-			return false
-		}
-		if call, ok := n.(*ast.CallExpr); ok {
-			if fn := calleeOf(info, call); fn != nil && fullName(fn) == modPath+".ReleaseBuffer" {
-				nonDeferred = true
-			}
-		}
-		return true
-	})
 	c.check(deferred && !nonDeferred, "C11.R5", key+"|buffer-released-by-defer", c.pos(fd.Pos()), "ReleaseBuffer only in a defer: no use of the buffer after release",
 		"the pooled buffer is released outside a defer: its bytes can be reused by another request before they are written")
 
-	// dispatch
+	// dispatch: over the paths of ServeHTTP (the two handlers followed into): every path renders exactly once; straight
+	// into the ResponseWriter only on paths that took the StreamResponse flag as true, into a buffer on all others
 	sfd := findFunc(p, "ComponentHandler", "ServeHTTP")
 	if sfd == nil {
 		c.viol("C11.R5", "anchor-lost:ComponentHandler.ServeHTTP", "", "templ.ComponentHandler.ServeHTTP not found")
 	} else {
-		// over the paths of ServeHTTP: every path calls exactly one of the two handlers; the streamed one only on paths
-		// that took the StreamResponse flag as true, the buffered one on all others
-		den := &denum{info: info, pkg: p.Types, inits: map[types.Object]ast.Expr{}, limit: 5000}
-		den.finish(den.run(sfd.Body.List, []dstate{{env: map[types.Object]ast.Expr{}}}))
+		var swObj types.Object
+		for _, prm := range sfd.Type.Params.List {
+			if t := info.TypeOf(prm.Type); t != nil && t.String() == "net/http.ResponseWriter" && len(prm.Names) == 1 {
+				swObj = info.Defs[prm.Names[0]]
+			}
+		}
+		sden := &denum{info: info, pkg: p.Types, inits: map[types.Object]ast.Expr{}, limit: 20000, decls: decls, inlineVals: true}
+		sden.finish(sden.run(sfd.Body.List, []dstate{{env: map[types.Object]ast.Expr{}}}))
 		why := ""
 		nbuf := 0
-		if den.undecided != "" {
-			c.undec("C11.R5", funcKey(p, sfd)+"|buffered-unless-streaming", c.pos(sfd.Pos()), "ServeHTTP contains "+den.undecided)
+		if sden.undecided != "" {
+			c.undec("C11.R5", funcKey(p, sfd)+"|buffered-unless-streaming", c.pos(sfd.Pos()), "ServeHTTP contains "+sden.undecided)
 		} else {
-			for _, pth := range den.paths {
+			for _, pth := range sden.paths {
 				streamed, buffered := 0, 0
-				for _, st := range pth.Trace {
-					ast.Inspect(st, func(n ast.Node) bool {
-						if call, ok := n.(*ast.CallExpr); ok {
-							if fn := calleeOf(info, call); fn != nil && fn.Pkg() == p.Types {
-								switch fn.Name() {
-								case "ServeHTTPStreamed":
-									streamed++
-								case "ServeHTTPBuffered":
-									buffered++
-								}
-							}
+				for _, e := range c11Events(info, sden, pth, swObj) {
+					if e.kind == "render" {
+						if e.bufIsW {
+							streamed++
+						} else {
+							buffered++
 						}
-						return true
-					})
-				}
-				if pth.Ret != nil {
-					ast.Inspect(pth.Ret, func(n ast.Node) bool {
-						if call, ok := n.(*ast.CallExpr); ok {
-							if fn := calleeOf(info, call); fn != nil && fn.Pkg() == p.Types {
-								switch fn.Name() {
-								case "ServeHTTPStreamed":
-									streamed++
-								case "ServeHTTPBuffered":
-									buffered++
-								}
-							}
-						}
-						return true
-					})
+					}
 				}
 				flag, flagKnown := false, false
 				for _, pc := range pth.Conds {
@@ -419,19 +338,19 @@ func runC11(c *Ctx) {
 				nbuf += buffered
 				switch {
 				case streamed+buffered == 0:
-					why = "a path leaves ServeHTTP without ServeHTTPBuffered or ServeHTTPStreamed having been called: the client receives an empty 200 instead of the page, the 500 or the error handler's response"
+					why = "a path leaves ServeHTTP without the component having been rendered by the buffered or the streamed handler: the client receives an empty 200 instead of the page, the 500 or the error handler's response"
 				case streamed+buffered > 1:
-					why = "a path calls the response handlers more than once"
+					why = "a path renders the component more than once"
 				case streamed == 1 && !(flagKnown && flag):
-					why = "ServeHTTPStreamed is called on a path that did not test StreamResponse as true: responses are streamed (status and partial body committed before a render error is known) although buffering is the default"
+					why = "the component is rendered straight into the ResponseWriter on a path that did not test StreamResponse as true: responses are streamed (status and partial body committed before a render error is known) although buffering is the default"
 				case buffered == 1 && flagKnown && flag:
-					why = "ServeHTTPBuffered is called under the StreamResponse flag"
+					why = "the buffered handler runs under the StreamResponse flag"
 				}
 			}
 			if nbuf == 0 && why == "" {
-				why = "ServeHTTP never calls ServeHTTPBuffered"
+				why = "ServeHTTP never reaches the buffered handler"
 			}
-			c.check(why == "", "C11.R5", funcKey(p, sfd)+"|buffered-unless-streaming", c.pos(sfd.Pos()), fmt.Sprintf("%d paths: each calls exactly one of the two handlers; the streamed one only under StreamResponse", len(den.paths)),
+			c.check(why == "", "C11.R5", funcKey(p, sfd)+"|buffered-unless-streaming", c.pos(sfd.Pos()), fmt.Sprintf("%d paths: each renders exactly once; straight into the ResponseWriter only under StreamResponse", len(sden.paths)),
 				"ServeHTTP: "+why)
 		}
 	}
@@ -655,4 +574,153 @@ func streamingFlagSetOnlyByItsOption(c *Ctx, rule string) {
 	}
 	c.count("stream_flag_writes", n)
 	c.floor(rule, 1)
+}
+
+type c11event struct {
+	kind           string // render | effect | release | getbuffer
+	call           *ast.CallExpr
+	what           string
+	deferred       bool
+	bufIsW         bool         // render: the writer handed to Render is the ResponseWriter
+	bufPooled      bool         // render: … is what GetBuffer() returned
+	bufRoot        types.Object // render: the local that holds it
+	usesBuf        bool         // effect: an argument mentions the rendered buffer
+	writesRendered bool         // effect w.Write: the argument is (computed from) Bytes() of the rendered buffer
+}
+
+func isRenderCall(call *ast.CallExpr) bool {
+	se, ok := call.Fun.(*ast.SelectorExpr)
+	return ok && se.Sel.Name == "Render" && len(call.Args) == 2
+}
+
+// c11Events: what a path of the handler does, in order — Render calls (with what they write into), effects on the
+// ResponseWriter w (a method of w, or a call that is handed w), ReleaseBuffer calls.
+func c11Events(info *types.Info, den *denum, pth dpath, wObj types.Object) []c11event {
+	env := pth.Env
+	// root: the local an expression finally names (parameters of followed-into helpers lead to the caller's variable)
+	root := func(e ast.Expr) (types.Object, ast.Expr) {
+		var last types.Object
+		for i := 0; i < 12; i++ {
+			e = ast.Unparen(e)
+			if u, ok := e.(*ast.UnaryExpr); ok && u.Op == token.AND {
+				e = ast.Unparen(u.X)
+			}
+			id, ok := e.(*ast.Ident)
+			if !ok {
+				return last, e
+			}
+			ob := info.ObjectOf(id)
+			last = ob
+			b, bound := env[ob]
+			if !bound || refersTo(info, b, ob) {
+				return last, nil
+			}
+			e = b
+		}
+		return last, nil
+	}
+	isW := func(e ast.Expr) bool {
+		ob, _ := root(e)
+		return ob != nil && ob == wObj
+	}
+	var renderBuf types.Object
+	var out []c11event
+	var nodes []ast.Node
+	for _, st := range pth.Trace {
+		nodes = append(nodes, st)
+	}
+	if pth.Ret != nil {
+		nodes = append(nodes, pth.Ret)
+	}
+	mentionsBuf := func(e ast.Expr) bool {
+		found := false
+		ast.Inspect(den.expand(e, env), func(n ast.Node) bool {
+			if id, ok := n.(*ast.Ident); ok && renderBuf != nil {
+				if ob, _ := root(id); ob == renderBuf {
+					found = true
+				}
+			}
+			return true
+		})
+		return found
+	}
+	for _, nd := range nodes {
+		_, isDefer := nd.(*ast.DeferStmt)
+		var calls []*ast.CallExpr
+		ast.Inspect(nd, func(n ast.Node) bool {
+			if _, ok := n.(*ast.FuncLit); ok {
+				return false
+			}
+			if call, ok := n.(*ast.CallExpr); ok {
+				calls = append(calls, call)
+			}
+			return true
+		})
+		// evaluation order: inner calls before the calls they are arguments / receivers of
+		for i := len(calls) - 1; i >= 0; i-- {
+			call := calls[i]
+			if fn := calleeOf(info, call); fn != nil && fullName(fn) == modPath+".ReleaseBuffer" {
+				out = append(out, c11event{kind: "release", call: call, deferred: isDefer})
+				continue
+			}
+			if isDefer {
+				continue
+			}
+			if isRenderCall(call) {
+				ev := c11event{kind: "render", call: call}
+				ob, final := root(call.Args[1])
+				ev.bufRoot = ob
+				ev.bufIsW = ob != nil && ob == wObj
+				if fc, ok := final.(*ast.CallExpr); ok {
+					if fn := calleeOf(info, fc); fn != nil && fullName(fn) == modPath+".GetBuffer" {
+						ev.bufPooled = true
+					}
+				}
+				if !ev.bufIsW {
+					renderBuf = ob
+				}
+				out = append(out, ev)
+				continue
+			}
+			if se, ok := call.Fun.(*ast.SelectorExpr); ok && isW(se.X) {
+				ev := c11event{kind: "effect", call: call, what: "w." + se.Sel.Name}
+				for _, a := range call.Args {
+					if mentionsBuf(a) {
+						ev.usesBuf = true
+					}
+				}
+				if se.Sel.Name == "Write" && len(call.Args) == 1 {
+					// Bytes() of the rendered buffer somewhere in what is written (directly, or copied by the render helper)
+					ast.Inspect(den.expand(call.Args[0], env), func(n ast.Node) bool {
+						if bc, ok := n.(*ast.CallExpr); ok {
+							if bs, ok := bc.Fun.(*ast.SelectorExpr); ok && bs.Sel.Name == "Bytes" && renderBuf != nil {
+								if ob, _ := root(bs.X); ob == renderBuf {
+									ev.writesRendered = true
+								}
+							}
+						}
+						return true
+					})
+				}
+				out = append(out, ev)
+				continue
+			}
+			handed := false
+			for _, a := range call.Args {
+				if isW(a) {
+					handed = true
+				}
+			}
+			if handed {
+				ev := c11event{kind: "effect", call: call, what: types.ExprString(call.Fun) + "(w…)"}
+				for _, a := range call.Args {
+					if mentionsBuf(a) {
+						ev.usesBuf = true
+					}
+				}
+				out = append(out, ev)
+			}
+		}
+	}
+	return out
 }
